@@ -458,7 +458,7 @@ def bool_fn_table(body, max_atoms=8):
             continue
         if t["k"] == "switch":
             note(prov.operand(t["d"]))
-        if t["k"] == "call" and t.get("dest") and t["dest"]["l"] == 0 and not t["dest"]["p"]:
+        if t["k"] == "call" and t.get("dest") and not t["dest"]["p"] and (t["dest"]["l"] == 0 or body.local_ty(t["dest"]["l"]) == "bool"):
             note(prov._call(t, True))
         for s in body.stmts(bi):
             if s["k"] == "assign" and s["pl"]["l"] == 0 and not s["pl"]["p"]:
@@ -491,16 +491,47 @@ def bool_fn_table(body, max_atoms=8):
     for bits in itertools.product([False, True], repeat=len(atoms)):
         val = dict(zip(atoms, bits))
         cur, res, steps = 0, None, 0
+        env = {}     # boolean temporaries with a value on this path (join points of && / || are assigned on several paths)
+
+        def raw(rv):
+            def opv(o):
+                if o["k"] in ("copy", "move") and not o["pl"]["p"] and o["pl"]["l"] in env:
+                    return env[o["pl"]["l"]]
+                return ev(prov.operand(o), val)
+            if rv["k"] == "use":
+                return opv(rv["a"])
+            if rv["k"] == "un" and rv["op"] == "Not":
+                x = opv(rv["a"])
+                return None if x is None else (not x)
+            if rv["k"] == "bin" and rv["op"] in ("BitAnd", "BitOr", "BitXor") :
+                a, b = opv(rv["a"]), opv(rv["b"])
+                if a is None or b is None:
+                    return None
+                return {"BitAnd": a and b, "BitOr": a or b, "BitXor": a != b}[rv["op"]]
+            return ev(prov._rvalue(rv, True), val)
+
         while steps < 500:
             steps += 1
             for s in body.stmts(cur):
-                if s["k"] == "assign" and s["pl"]["l"] == 0 and not s["pl"]["p"]:
-                    res = ev(prov._rvalue(s["rv"], True), val)
+                if s["k"] == "assign" and not s["pl"]["p"]:
+                    x = raw(s["rv"])
+                    if s["pl"]["l"] == 0:
+                        res = x
+                    elif isinstance(x, bool):
+                        env[s["pl"]["l"]] = x
+                    else:
+                        env.pop(s["pl"]["l"], None)
             t = body.term(cur)
             k = t["k"]
             if k == "return":
                 break
             if k == "call":
+                if t.get("dest") and not t["dest"]["p"] and t["dest"]["l"] != 0:
+                    x = ev(prov._call(t, True), val)
+                    if isinstance(x, bool):
+                        env[t["dest"]["l"]] = x
+                    else:
+                        env.pop(t["dest"]["l"], None)
                 if t.get("dest") and t["dest"]["l"] == 0 and not t["dest"]["p"]:
                     res = ev(prov._call(t, True), val)
                 if t.get("t") is None:
@@ -516,7 +547,11 @@ def bool_fn_table(body, max_atoms=8):
                 tm = {int(a): b for a, b in t["ts"]}
                 cur = tm[hit[0]] if hit else t["o"]
             elif k == "switch":
-                x = ev(prov.operand(t["d"]), val)
+                dop = t["d"]
+                if dop["k"] in ("copy", "move") and not dop["pl"]["p"] and dop["pl"]["l"] in env:
+                    x = env[dop["pl"]["l"]]
+                else:
+                    x = ev(prov.operand(dop), val)
                 if x is None:
                     res = None
                     break
